@@ -1030,10 +1030,11 @@ func runKeyText(r *Rng) {
 
 // ---------------------------------------------------------------- generated keys: export, re-read, cross sign/verify
 type genIn struct {
-	Alg  uint8  `json:"algorithm"`
-	Bits int    `json:"bits"`
-	Pub  string `json:"public_key"`
-	What string `json:"what"`
+	Alg   uint8  `json:"algorithm"`
+	Bits  int    `json:"bits"`
+	Pub   string `json:"public_key"`
+	What  string `json:"what"`
+	Flags uint16 `json:"flags,omitempty"`
 }
 
 func testRRset() []dns.RR {
@@ -1086,9 +1087,9 @@ func samePub(k *dns.DNSKEY, priv crypto.PrivateKey) bool {
 
 func genCase(r *Rng, alg uint8, bits int) {
 	k := &dns.DNSKEY{Hdr: dns.RR_Header{Name: "example.org.", Rrtype: dns.TypeDNSKEY, Class: dns.ClassINET, Ttl: 3600},
-		Flags: 256 + uint16(r.Intn(2)), Protocol: 3, Algorithm: alg}
+		Flags: genFlags(r), Protocol: 3, Algorithm: alg} // any flags value with the ZONE bit: 256, 257, 384, 385, 0x8100, 0xFFFF, random
 	priv, err := k.Generate(bits)
-	in := genIn{Alg: alg, Bits: bits}
+	in := genIn{Alg: alg, Bits: bits, Flags: k.Flags}
 	st["gen_checked"]++
 	st[fmt.Sprintf("gen_alg%d", alg)]++
 	if err != nil {
@@ -1198,7 +1199,7 @@ func genCase(r *Rng, alg uint8, bits int) {
 		rrset := testRRset()
 		if err := sig.Sign(signer, rrset); err != nil {
 			in.What = fmt.Sprintf("Sign with key %d failed: %v", which, err)
-			Viol("C17/PrivateKey/sign", in.What, in)
+			signFailed(k, err, in.What, in)
 			continue
 		}
 		for _, kk := range []*dns.DNSKEY{k, k2} {
@@ -1249,7 +1250,7 @@ func smallDCase(r *Rng, alg uint8, d *big.Int) {
 	sig := &dns.RRSIG{Hdr: dns.RR_Header{Ttl: 300}, Algorithm: alg, Expiration: 1700003600, Inception: 1700000000, KeyTag: k.KeyTag(), SignerName: "example.org."}
 	rrset := testRRset()
 	if err := sig.Sign(e2, rrset); err != nil {
-		Viol("C17/PrivateKey/sign", "Sign with the re-read key failed: "+err.Error(), in)
+		signFailed(k, err, "Sign with the re-read key failed: "+err.Error(), in)
 		return
 	}
 	if err := sig.Verify(k, rrset); err != nil {
@@ -1490,7 +1491,8 @@ func keyTagCollision() {
 	}
 	a := rr.(*dns.DNSKEY)
 	priv, err := a.NewPrivateKey(RSA4096Priv8)
-	if err != nil {
+	if err != nil || priv == nil {
+		Viol("C17/PrivateKey/reread", fmt.Sprintf("the text PrivateKeyString wrote for a 4096-bit RSA key cannot be re-read: %v", err), genIn{Alg: 8, Bits: 4096, Pub: a.PublicKey, Flags: a.Flags})
 		return
 	}
 	raw, err := base64.StdEncoding.DecodeString(a.PublicKey)
@@ -1545,6 +1547,9 @@ func runC17(r *Rng, tier string, n int) {
 	runKeyText(r)
 	runRaw()
 	runGen(r, tier)
+	runFlags(r, tier)      // keys.go: every DNSKEY flags value
+	runFixedKeys(r, tier)  // keys.go: every key size, fixed key pairs
+	runKeyLines(r, tier)   // keys.go: key text with lines of any length
 	runConcurrent(r, tier) // conc.go: the same calls from many goroutines at once
 	Stat(st)
 }
